@@ -75,6 +75,49 @@ pub fn network(opt: &str) -> Network {
     net
 }
 
+/// a network with WIDE dense layers (96 -> 70 -> 3): rows of 96 and 70 weights, beyond any blocking / parallel
+/// threshold a per-row reduction would plausibly use
+pub fn network_wide() -> Network {
+    let mut net = Network::new(Shape::Single(96));
+    net.dense(70, Activation::Tanh, true, None);
+    net.dense(3, Activation::Linear, true, None);
+    net.set_objective(Objective::MSE, None);
+    net.set_optimizer(optimizer::SGDM::create(0.05, 0.9, 0.0, None));
+    let mut r = Mix(0xC05_1DE);
+    let fresh = neurons::verif::params(&net);
+    let filled: Vec<LayerParams> = fresh.iter().map(|p| refill_params(p, &mut r, None)).collect();
+    neurons::verif::set_params(&mut net, &filled);
+    net
+}
+
+pub fn samples_wide(n: usize, salt: u64) -> (Vec<Tensor>, Vec<Tensor>) {
+    let mut r = Mix(0x1DE ^ salt);
+    let xs = (0..n).map(|_| Tensor::single((0..96).map(|_| r.f(1.0)).collect())).collect();
+    let ts = (0..n).map(|_| Tensor::single((0..3).map(|_| r.f(1.0)).collect())).collect();
+    (xs, ts)
+}
+
+/// wide network: learn() on 3 samples with batch 2, one epoch, 2 validation samples; then predict_batch on 2 inputs
+pub fn seg_wide() -> Vec<u32> {
+    let mut net = network_wide();
+    let (xs, ts) = samples_wide(3, 1);
+    let (vx, vt) = samples_wide(2, 2);
+    let (xr, tr): (Vec<&Tensor>, Vec<&Tensor>) = (xs.iter().collect(), ts.iter().collect());
+    let (vxr, vtr): (Vec<&Tensor>, Vec<&Tensor>) = (vx.iter().collect(), vt.iter().collect());
+    let (train, vl, va) = net.learn(&xr, &tr, Some((&vxr, &vtr, 50)), 2, 1, None);
+    let mut out = Vec::new();
+    out.extend(train.iter().map(|x| x.to_bits()));
+    out.extend(vl.iter().map(|x| x.to_bits()));
+    out.extend(va.iter().map(|x| x.to_bits()));
+    for p in neurons::verif::params(&net) {
+        param_bits(&p, &mut out);
+    }
+    for p in &net.predict_batch(&vxr) {
+        bits_of(p, &mut out);
+    }
+    out
+}
+
 pub fn samples(n: usize, salt: u64) -> (Vec<Tensor>, Vec<Tensor>) {
     let mut r = Mix(0xDA7A ^ salt);
     let xs = (0..n).map(|_| Tensor::triple(vec![(0..6).map(|_| (0..6).map(|_| r.f(1.0)).collect()).collect()])).collect();
@@ -179,7 +222,7 @@ pub fn partition(n: usize) -> Vec<Vec<usize>> {
         .collect()
 }
 
-pub const SEGMENTS: [&str; 11] = [
+pub const SEGMENTS: [&str; 12] = [
     "learn-adam-b2",
     "learn-adam-b3",
     "learn-adam-b5",
@@ -192,6 +235,7 @@ pub const SEGMENTS: [&str; 11] = [
     "learn-adam-b17",
     "learn-sgdm-b32",
     "validate-large",
+    "learn-predict-wide",
 ];
 
 pub fn run_segment(name: &str) -> Vec<u32> {
@@ -206,6 +250,7 @@ pub fn run_segment(name: &str) -> Vec<u32> {
         "learn-sgdm-b32" => seg_learn("sgdm", 32),
         "validate" => seg_validate(),
         "validate-large" => seg_validate_large(),
+        "learn-predict-wide" => seg_wide(),
         "predict_batch" => seg_predict(),
         "canary" => seg_canary(),
         _ => panic!("unknown segment {}", name),
